@@ -4,14 +4,14 @@ WT="$1"; OUT="$2"; EXTRA="$3"; LOG="$OUT/confirm.log"
 {
 set -x
 cd "$WT" || exit 9
-git -C "$WT" checkout -q -- . ; git -C "$WT" apply "$OUT/patch.diff" || { echo "CONFIRM: patch does not apply"; exit 9; }
+git -C "$WT" reset -q; git -C "$WT" checkout -q -- . ; git -C "$WT" clean -fdq include; git -C "$WT" apply "$OUT/patch.diff" || { echo "CONFIRM: patch does not apply"; exit 9; }
 git -C "$WT" diff --stat
 cmake -G Ninja -S "$WT" -B "$WT/_build" -DPHYSICAL_QUANTITIES_PHQ_TEST=ON -DCMAKE_BUILD_TYPE=RelWithDebInfo -DCMAKE_CXX_FLAGS=-Wno-error > /dev/null
 cmake --build "$WT/_build" -j8 2>&1 | tail -2
 ctest --test-dir "$WT/_build" -j4 --timeout 900 2>&1 | grep -E "tests passed|Failed|\*\*\*" | head -10
 FAILED=$(ctest --test-dir "$WT/_build" -j4 --timeout 900 2>&1 | grep -E "\(Failed\)" | grep -v Performance | wc -l)
 g++ -std=c++17 -O0 $EXTRA -I"$WT/include" "$OUT/demo.cc" -o "$OUT/demo_with" && "$OUT/demo_with" > "$OUT/demo_with.out" 2>&1; RC_WITH=$?
-git -C "$WT" checkout -q -- .
+git -C "$WT" reset -q; git -C "$WT" checkout -q -- .; git -C "$WT" clean -fdq include
 g++ -std=c++17 -O0 $EXTRA -I"$WT/include" "$OUT/demo.cc" -o "$OUT/demo_without" && "$OUT/demo_without" > "$OUT/demo_without.out" 2>&1; RC_WITHOUT=$?
 git -C "$WT" apply "$OUT/patch.diff"
 rm -rf "$WT/_build" "$OUT/demo_with" "$OUT/demo_without" "$OUT/demo"
